@@ -308,4 +308,68 @@ def unsqueezeScalar (a : STn) : Option STn :=
 def squeezeVector (a : STn) : Option STn :=
   match a with | .vector [e] => some (.scalar e) | _ => none
 
+
+/-! ## Shape-level layout rules -/
+
+/-- `Transpose { perm }` on a known input shape: `perm = none` reverses, otherwise every index must
+be `< ndim` (`IncorrectRank`) and the output has one dimension per entry of `perm`. -/
+def transposeInfer (perm : Option (List Nat)) (a : STn) : Except Err STn :=
+  match a.dims with
+  | none => .ok .unknown       -- (with a perm the code generates fresh symbols: not modelled)
+  | some ds =>
+    match perm with
+    | none => .ok (.shape ds.reverse)
+    | some p =>
+      match mapO (fun i => ds[i]?) p with
+      | some out => .ok (.shape out)
+      | none => .error .incorrectRank
+
+def insertAt {α : Type} : Nat → α → List α → List α
+  | 0, x, l => x :: l
+  | _ + 1, x, [] => [x]          -- `Vec::insert` would panic here; unreachable for sorted distinct axes
+  | n + 1, x, y :: l => y :: insertAt n x l
+
+def insertSorted (x : Nat) : List Nat → List Nat
+  | [] => [x]
+  | y :: l => if x ≤ y then x :: y :: l else y :: insertSorted x l
+
+def sortNat (l : List Nat) : List Nat := l.foldr insertSorted []
+
+/-- `windows(2).any(|p| p[0] == p[1])`. -/
+def hasAdjDup : List Nat → Bool
+  | x :: y :: l => x == y || hasAdjDup (y :: l)
+  | _ => false
+
+/-- `Unsqueeze` shape path (duplicate axes are rejected with `InvalidValue`): resolve the constant axes against the output rank, sort, insert 1s. -/
+def unsqueezeShape (a : STn) (axes : List Int) : Except Err STn :=
+  match a.dims with
+  | none => .ok .unknown
+  | some ds =>
+    match mapO (resolveIndex (ds.length + axes.length)) axes with
+    | none => .error .incorrectRank
+    | some rs =>
+      if hasAdjDup (sortNat rs) then .error .invalidValue
+      else .ok (.shape ((sortNat rs).foldl (fun d ax => insertAt ax (Sym.val 1) d) ds))
+
+def removeIdx {α : Type} (rm : List Nat) : Nat → List α → List α
+  | _, [] => []
+  | i, x :: l => if rm.contains i then removeIdx rm (i + 1) l else x :: removeIdx rm (i + 1) l
+
+/-- `Squeeze` shape path with constant axes: drop the listed axes (no check that they are 1). -/
+def squeezeShape (a : STn) (axes : List Int) : Except Err STn :=
+  match a.dims with
+  | none => .ok .unknown
+  | some ds =>
+    match mapO (resolveIndex ds.length) axes with
+    | none => .error .incorrectRank
+    | some rs => .ok (.shape (removeIdx rs 0 ds))
+
+/-- `ConstantOfShape { value }` when the shape input has values (`value = none`: float fill). -/
+def constantOfShapeInfer (value : Option Int) (shape : List Sym) : Except Err STn :=
+  match value, shape with
+  | some v, [] => .ok (.scalar (.val v))
+  | some v, [.val n] => if 0 ≤ n then .ok (.vector (List.replicate n.toNat (.val v))) else .error .invalidValue
+  | some _, [e] => .ok (.shape [e])
+  | _, es => .ok (.shape es)
+
 end RtenVerif.ShapeInfer
